@@ -17,7 +17,7 @@ from engine import refpoly as R
 ID = "C08"
 LEVEL = "exploration"
 WORKERS = {"quick": 10, "thorough": 14}
-RULE = ("complete product mu x {L1,L2} x N x (all monomials of degree 3..N for the term structure; 24 complex/real directions x 5-rung radius ladder for the three exponent statements); "
+RULE = ("every sequence of <= 3 requests {PN, FN, F, I, CMR} on one pipeline followed by all checks; complete product mu x {L1,L2} x N x (all monomials of degree 3..N for the term structure; 24 complex/real directions x 5-rung radius ladder for the three exponent statements); "
         "synthetic programs: every cubic monomial (56) switched on alone on top of the true quadratic part (thorough: + every quartic monomial, 126); "
         "non-trivial = ladder with >= 2 halvings above the floor / monomial of degree >= 3 examined; distinct = (mu, point, N, direction) and (program)")
 ASSUMPTIONS = [
@@ -131,8 +131,41 @@ def check_ladders(H_old, H_new, fwd, inv, N, psi, clmo, enc, dirs, r0, V, what, 
     return nlad, nontriv
 
 
-def k_pipeline(params):
+def _check_pipe(pipe, N, params, V, dirs_step=1, what_suffix=""):
     pb, ops, clie = _L["pb"], _L["ops"], _L["clie"]
+    H_old = pipe.get_hamiltonian("complex_modal")
+    H_pn = pipe.get_hamiltonian("complex_partial_normal")
+    psi, clmo = H_old.dynamics.psi, H_old.dynamics.clmo
+    enc = pb._create_encode_dict_from_clmo(clmo)
+    scale = max(float(np.max(np.abs(np.asarray(H_old.poly_H[2])))), 1e-12)
+    stats = {}
+    n = check_structure(H_pn.poly_H, clmo, N, "partial", scale, V, "complex_partial_normal" + what_suffix)
+    # quadratic part must be untouched by the normalisation
+    d2 = float(np.max(np.abs(np.asarray(H_pn.poly_H[2]) - np.asarray(H_old.poly_H[2]))))
+    if d2 > 1e-12 * scale:
+        V("structure/h2_changed", "the quadratic part changed by %.3e during the normalisation" % d2, d2, 0.0)
+    fwd = pipe.get_lie_expansions(inverse=False, tol=1e-30)
+    inv = pipe.get_lie_expansions(inverse=True, tol=1e-30)
+    dirs = directions(params["off"])[::dirs_step]
+    nl, nt = check_ladders(H_old.poly_H, H_pn.poly_H, fwd, inv, N, psi, clmo, enc, dirs, params["r0"], V, "partial normal form" + what_suffix, stats)
+    n += nl
+    nontriv = nt
+    # full normal form
+    try:
+        H_fn = pipe.get_hamiltonian("complex_full_normal")
+        n += check_structure(H_fn.poly_H, clmo, N, "full", scale, V, "complex_full_normal" + what_suffix)
+        G = pipe.get_generating_functions("full")
+        fwd_f = clie._lie_expansion(G.poly_G, N, psi, clmo, 1e-30, inverse=False, sign=1, restrict=False)
+        inv_f = clie._lie_expansion(G.poly_G, N, psi, clmo, 1e-30, inverse=True, sign=-1, restrict=False)
+        nl, nt = check_ladders(H_old.poly_H, H_fn.poly_H, fwd_f, inv_f, N, psi, clmo, enc, dirs[::3], params["r0"] * 0.6, V, "full normal form" + what_suffix, stats)
+        n += nl
+        nontriv += nt
+    except Exception as exc:
+        V("full/raises", "full normal form cannot be computed: %s: %s" % (type(exc).__name__, str(exc)[:160]))
+    return n, nontriv, stats
+
+
+def k_pipeline(params):
     mu, Ln, N = params["mu"], params["point"], params["N"]
     system = _L["System"].from_mu(mu)
     pt = system.get_libration_point(Ln)
@@ -144,36 +177,50 @@ def k_pipeline(params):
     def V(key, what, obs=None, exp=None):
         viol.setdefault(key, violation(key, what + " [%s]" % tag, obs, exp))
 
-    H_old = pipe.get_hamiltonian("complex_modal")
-    H_pn = pipe.get_hamiltonian("complex_partial_normal")
-    psi, clmo = H_old.dynamics.psi, H_old.dynamics.clmo
-    enc = pb._create_encode_dict_from_clmo(clmo)
-    scale = max(float(np.max(np.abs(np.asarray(H_old.poly_H[2])))), 1e-12)
-    stats = {}
-    n = check_structure(H_pn.poly_H, clmo, N, "partial", scale, V, "complex_partial_normal")
-    # quadratic part must be untouched by the normalisation
-    d2 = float(np.max(np.abs(np.asarray(H_pn.poly_H[2]) - np.asarray(H_old.poly_H[2]))))
-    if d2 > 1e-12 * scale:
-        V("structure/h2_changed", "the quadratic part changed by %.3e during the normalisation" % d2, d2, 0.0)
-    fwd = pipe.get_lie_expansions(inverse=False, tol=1e-30)
-    inv = pipe.get_lie_expansions(inverse=True, tol=1e-30)
-    dirs = directions(params["off"])
-    nl, nt = check_ladders(H_old.poly_H, H_pn.poly_H, fwd, inv, N, psi, clmo, enc, dirs, params["r0"], V, "partial normal form", stats)
-    n += nl
-    nontriv = nt
-    # full normal form
-    try:
-        H_fn = pipe.get_hamiltonian("complex_full_normal")
-        n += check_structure(H_fn.poly_H, clmo, N, "full", scale, V, "complex_full_normal")
-        G = pipe.get_generating_functions("full")
-        fwd_f = clie._lie_expansion(G.poly_G, N, psi, clmo, 1e-30, inverse=False, sign=1, restrict=False)
-        inv_f = clie._lie_expansion(G.poly_G, N, psi, clmo, 1e-30, inverse=True, sign=-1, restrict=False)
-        nl, nt = check_ladders(H_old.poly_H, H_fn.poly_H, fwd_f, inv_f, N, psi, clmo, enc, dirs[::3], params["r0"] * 0.6, V, "full normal form", stats)
-        n += nl
-        nontriv += nt
-    except Exception as exc:
-        V("full/raises", "full normal form cannot be computed: %s: %s" % (type(exc).__name__, str(exc)[:160]))
+    n, nontriv, stats = _check_pipe(pipe, N, params, V)
     return res(evals=n, nontrivial=nontriv, viol=list(viol.values()), stats=stats, sample={"tag": tag, "checked": n, **{k: round(v, 2) for k, v in stats.items()}})
+
+
+HIST_OPS = {
+    "PN": lambda pipe, cm: pipe.get_hamiltonian("complex_partial_normal"),
+    "FN": lambda pipe, cm: pipe.get_hamiltonian("complex_full_normal"),
+    "F": lambda pipe, cm: pipe.get_lie_expansions(inverse=False, tol=1e-30),
+    "I": lambda pipe, cm: pipe.get_lie_expansions(inverse=True, tol=1e-30),
+    "CMR": lambda pipe, cm: pipe.get_hamiltonian("center_manifold_real"),
+}
+
+
+def k_pipeline_history(params):
+    """every sequence of <= depth requests {partial normal form, full normal form, forward expansions, inverse expansions, centre-manifold
+    Hamiltonian} on one freshly built pipeline; afterwards the pipeline must still satisfy every statement of the property"""
+    import itertools
+
+    mu, Ln, N = params["mu"], params["point"], params["N"]
+    viol = {}
+    n = nt = 0
+    nseq = 0
+    for depth in range(0, params["depth"]):
+        for rest in itertools.product(sorted(HIST_OPS), repeat=depth):
+            seq = (params["first"],) + rest
+            system = _L["System"].from_mu(mu)
+            pt = system.get_libration_point(Ln)
+            cm = _L["CM"](pt, N)
+            pipe = cm.dynamics.pipeline
+            tag = "mu=%g L%d N=%d after the requests %s on the same pipeline" % (mu, Ln, N, list(seq))
+
+            def V(key, what, obs=None, exp=None):
+                viol.setdefault("history/" + key, violation("history/" + key, what + " [%s]" % tag, obs, exp, ("pipeline_history", params)))
+            try:
+                for op in seq:
+                    HIST_OPS[op](pipe, cm)
+            except Exception as exc:
+                V("raises", "request sequence raises %s: %s" % (type(exc).__name__, str(exc)[:120]))
+                continue
+            a, b, _ = _check_pipe(pipe, N, params, V, dirs_step=6)
+            n += a
+            nt += b
+            nseq += 1
+    return res(evals=n, nontrivial=nt, viol=list(viol.values()), stats={"request_histories": nseq}, sample={"mu": mu, "point": Ln, "N": N, "histories": nseq})
 
 
 def k_synthetic(params):
@@ -189,7 +236,7 @@ def k_synthetic(params):
     psi, clmo = pb._init_index_tables(N)
     enc = pb._create_encode_dict_from_clmo(clmo)
     monos = [k for d in params["degs"] for k in R.monomials(d)]
-    monos = monos[params["lo"]:params["hi"]]
+    monos = monos[params["lo"]:params["hi"]:params.get("stride", 1)]
     viol = {}
     n = 0
     nontriv = 0
@@ -224,7 +271,7 @@ def k_synthetic(params):
     return res(evals=n, nontrivial=nontriv, viol=list(viol.values()), stats=stats, sample={"mu": mu, "point": Ln, "N": N, "programs": len(monos), "first": list(monos[0]) if monos else None})
 
 
-KINDS = {"pipeline": k_pipeline, "synthetic": k_synthetic}
+KINDS = {"pipeline": k_pipeline, "synthetic": k_synthetic, "pipeline_history": k_pipeline_history}
 
 
 def cases(tier, seed):
@@ -239,6 +286,13 @@ def cases(tier, seed):
     # synthetic programs: 56 cubic monomials in slices (thorough: + 126 quartic ones)
     for lo in range(0, 56, 8):
         out.append(("synthetic", {"mu": 0.01215, "point": 1, "N": 4, "degs": [3], "lo": lo, "hi": lo + 8, "r0": 0.08, "off": o[0]}))
+    # gap programs (a homogeneous part below the perturbation vanishes): quick = every 9th quartic monomial, thorough = all of them (below)
+    out.append(("synthetic", {"mu": 0.01215, "point": 2, "N": 5, "degs": [4], "lo": 0, "hi": 126, "stride": 9, "r0": 0.08, "off": o[0]}))
+    # request histories on one pipeline: all sequences of <= 3 (thorough 4) requests, split by first request
+    for first in sorted(HIST_OPS):
+        out.append(("pipeline_history", {"mu": 0.01215, "point": 1, "N": 4, "first": first, "depth": 3 if tier == "quick" else 4, "r0": 0.08, "off": o[0]}))
+        if tier != "quick":
+            out.append(("pipeline_history", {"mu": 9.5e-4, "point": 2, "N": 5, "first": first, "depth": 3, "r0": 0.08, "off": o[0]}))
     if tier != "quick":
         for lo in range(0, 126, 9):
             out.append(("synthetic", {"mu": 0.01215, "point": 2, "N": 5, "degs": [4], "lo": lo, "hi": lo + 9, "r0": 0.08, "off": o[0]}))
